@@ -12,7 +12,7 @@ DRIVER_SRC = os.path.join(core.VERIF, "replay", "replay.c")
 
 
 def build_driver():
-    d = os.path.join(core.WORK, "replay")
+    d = os.path.join(core.WORK, "replay.%d" % os.getpid())
     os.makedirs(d, exist_ok=True)
     exe = os.path.join(d, "replay")
     cmd = ["clang", "-g", "-O1", "-fsanitize=address,undefined", "-fno-sanitize-recover=all",
